@@ -9,6 +9,7 @@ import Mathlib.Algebra.BigOperators.Group.List.Basic
 import Mathlib.Algebra.Order.Field.Rat
 import Mathlib.Tactic.Ring
 import Mathlib.Tactic.Linarith
+import PhotVerif.Gen.ForwardTable
 
 namespace PhotVerif.C02
 open PhotVerif PhotVerif.Gen PhotVerif.Model PhotVerif.C01
@@ -161,5 +162,13 @@ theorem areaOverlap_eq_good_weight_sum (b : BBox) (w : Int → Int → Rat) (ny 
 -- non-vacuity: 2×2 box straddling the corner of a 3×3 image, one masked pixel
 example : apSum (· * ·) ⟨-1, 1, -1, 1⟩ (fun _ _ => (1/2 : Rat)) 3 3 (fun y x => (y + 2 * x + 5 : Rat))
     (fun _ _ => false) = .ok (some (5/2)) := by decide +kernel
+
+/-! ### no delegating call in this property's modules drops an argument it holds (table regenerated from the source) -/
+
+/-- TABLE OBLIGATION: in the modules of this property, every call that delegates to another photutils function, method or
+    constructor passes on each value the caller holds under the callee's own parameter name (its own parameters, `self.<name>`
+    attributes set in `__init__`) - dropped `subpixels`, `mask`, `connectivity`, `include_localbkg` ... keywords were a recurring
+    kind of seeded change -/
+theorem no_dropped_arguments : Gen.ForwardTable.droppedIn Gen.ForwardTable.scopeC02 = [] := by decide
 
 end PhotVerif.C02
